@@ -121,14 +121,25 @@ def gen_def(rng, prof):
                 tr["do"] = ["continue"]
             t["next"].append(tr)
         tasks.append(t)
-    # loop: one back edge guarded by a counter
-    if n >= 2 and rng.random() < prof.p_loop:
-        k = rng.randint(1, n - 1)
-        j = rng.randint(0, k)
-        tasks[k]["next"].insert(0, {
-            "when": op("and", fn("succeeded"), op("lt", ctx("n"), lit(rng.randint(1, 2)))),
-            "publish": [["n", op("add", ctx("n"), lit(1))]], "do": [names[j]]})
-        feats.add("loop")
+    # loop: one back edge guarded by a counter; single entry: either a self-loop, or a two-task
+    # loop j -> k -> j where nothing else leads to k (the properties quantify over such loops)
+    if rng.random() < prof.p_loop:
+        def inb(name):
+            return sum(1 for t in tasks for tr in t["next"] for d in tr["do"] if d == name)
+        cands = []
+        for j in range(n):
+            if inb(names[j]) <= 1:
+                cands.append((j, j))
+                for k in range(j + 1, n):
+                    srcs = [t["name"] for t in tasks for tr in t["next"] for d in tr["do"] if d == names[k]]
+                    if srcs and all(x == names[j] for x in srcs) and len(srcs) == 1:
+                        cands.append((j, k))
+        if cands:
+            j, k = rng.choice(cands)
+            tasks[k]["next"].insert(0, {
+                "when": op("and", fn("succeeded"), op("lt", ctx("n"), lit(rng.randint(1, 2)))),
+                "publish": [["n", op("add", ctx("n"), lit(1))]], "do": [names[j]]})
+            feats.add("loop")
     # inbound counts -> joins
     inbound = {nm: set() for nm in names}
     inbound_cnt = {nm: 0 for nm in names}
@@ -196,8 +207,8 @@ def gen_def(rng, prof):
         feats.add("output")
     # failing expression
     if rng.random() < prof.p_badexpr:
-        bad = rng.choice([ctx("nope"), op("add", ctx("y_undefined"), lit(1)), op("lt", lit(None), lit(1)),
-                          {"item": "k"}])
+        bad = rng.choice([ctx("nope"), op("add", ctx("y_undefined"), lit(1)), ctx("__state"),
+                          {"item": "k"}, op("eq", ctx("nope2"), lit(1))])
         t = rng.choice(tasks)
         where = rng.choice(["input", "when", "publish", "items", "concurrency", "delay", "retry_when",
                             "retry_count", "retry_delay", "output", "vars", "wfinput"])
@@ -292,9 +303,11 @@ class History(object):
 
     def start_offers(self, offers):
         for o in offers:
+            if o["id"] in CMDS:
+                continue   # an engine command offered as a task (finding D19): a provider cannot run it
             for a in o["actions"]:
                 key = (o["id"], o["route"], a["item_id"])
-                if self.rng.random() < self.hp.p_lifecycle:
+                if a["item_id"] is None and self.rng.random() < self.hp.p_lifecycle:
                     for s in self.rng.choice([["requested"], ["scheduled"], ["requested", "scheduled"], ["delayed"]]):
                         self.report(key, s, None)
                 self.report(key, "running", None)
@@ -324,10 +337,10 @@ class History(object):
         key = self.inflight.pop(i)
         st = self.status()
         r = self.rng.random()
-        if self.hp.p_task_pause and r < self.hp.p_task_pause:
+        if self.hp.p_task_pause and key[2] is None and r < self.hp.p_task_pause:
             s = self.rng.choice(["pending", "paused"])
             self.report(key, s, None)
-            self.parked.append(key)
+            self.parked.append((key, s))
             return
         if st in ("canceling", "canceled") and r < 0.6:
             self.report(key, "canceled", None)
@@ -371,10 +384,25 @@ class History(object):
                         if hp.p_persist and rng.random() < hp.p_persist / 2:
                             self.play({"op": "persist"})
                 continue
-            if self.parked and st not in ("failed", "canceled", "succeeded"):
-                key = self.parked.pop(rng.randrange(len(self.parked)))
-                self.report(key, rng.choice(["resuming", "running"]), None)
-                self.inflight.append(key)
+            if self.parked and st in ("running", "resuming"):
+                i = rng.randrange(len(self.parked))
+                key, how = self.parked.pop(i)
+                if how == "pending":
+                    # an inquiry is answered: it completes (an item action is reported running
+                    # first, as the unit tests of the with-items tasks do)
+                    if key[2] is not None:
+                        self.report(key, "running", None)
+                    failed = self.plan(key[0])
+                    self.report(key, "failed" if failed else "succeeded", rng.choice([1, "r", None]))
+                else:
+                    if rng.random() < 0.5:
+                        self.report(key, "resuming", None)
+                    self.report(key, "running", None)
+                    self.inflight.append(key)
+                continue
+            if self.parked and st == "paused" and not self.requested_cancel:
+                self.play({"op": "req", "status": rng.choice(["resuming", "running"])})
+                self.requested_pause = False
                 continue
             if offers:
                 continue
